@@ -110,7 +110,7 @@ func viaNewFloat(kind string, x float64) (res printed) {
 
 // runLibrary pushes every query through both paths of the library (vals[i] != nil: the value goes
 // through constant.NewFloat instead).
-func runLibrary(qs []query, vals []*float64) []printed {
+func runLibrary(qs []query, vals []*float64, poss []*input) []printed {
 	const per = 1000
 	nb := (len(qs) + per - 1) / per
 	res := make([]printed, len(qs))
@@ -123,6 +123,12 @@ func runLibrary(qs []query, vals []*float64) []printed {
 		for i := lo; i < hi; i++ {
 			if vals[i] != nil {
 				res[i] = viaNewFloat(qs[i].kind, *vals[i])
+				continue
+			}
+			if poss[i] != nil {
+				// Positions: the literal printed at the place; viaConst = what the scalar path prints
+				res[i] = viaPosition(*poss[i])
+				res[i].viaConst, _, _ = viaConstant(qs[i])
 				continue
 			}
 			out, problem, detail := viaConstant(qs[i])
